@@ -471,6 +471,20 @@ func runC11(r *Run) {
 			if pathHasSuffix(fnPkgPath(fn), lk) && (fn.Name() == "UpdateDenomPeriods" || fn.Name() == "CreateDenom" || fn.Name() == "SetDenom") {
 				continue
 			}
+			// only functions that persist something about a record are of interest: a scratch copy that is never
+			// stored anywhere changes nothing
+			persists := false
+			for _, g := range withAnon(outermost(fn)) {
+				eachCall(g, func(ci CallInfo) {
+					switch ci.Name {
+					case "SetDenom", "UpdateDenomPeriods", "CreateDenom", "DeleteDenom":
+						persists = true
+					}
+				})
+			}
+			if !persists {
+				continue
+			}
 			seen := map[ssa.Value]bool{}
 			eachInstr(fn, func(in ssa.Instruction) {
 				st, ok := in.(*ssa.Store)
